@@ -12,7 +12,10 @@ for idx, (f, i, a, b, rep, pat) in enumerate(cands):
     subprocess.run(["git", "checkout", "-q", "--", "."], cwd="/tmp/mut/repo")
     p = os.path.join("/tmp/mut/repo", f)
     lines = open(p).read().split("\n")
-    lines[i] = lines[i][:a] + rep + lines[i][b:]
+    if rep == "SWAP":
+        lines[i], lines[i + 1] = lines[i + 1], lines[i]
+    else:
+        lines[i] = lines[i][:a] + rep + lines[i][b:]
     open(p, "w").write("\n".join(lines))
     r = subprocess.run("cargo test --offline 2>&1 | grep -E '^test result|^error|FAILED' | head -20", shell=True, cwd="/tmp/mut/repo", capture_output=True, text=True)
     out = r.stdout
